@@ -699,10 +699,6 @@ impl<'a> Oracle<'a> {
         }
         let (dec, er) = decode(bs, self.e, self.enc);
         if let Some(er) = er {
-            // the reader cannot represent a piece of 2^61 bytes or more in bits
-            if ops.iter().any(|o| matches!(o, AOp::Piece(n) if *n >= 1 << 61)) && er == "InvalidPiece" {
-                return Err("piece-bits-overflow op_piece accepts a size that read::Operation::parse rejects (InvalidPiece)".into());
-            }
             return Err(format!("decode-error {er} after {} operations", dec.len()));
         }
         if dec.len() != ops.len() {
